@@ -186,30 +186,50 @@ def run_parallel(fns, maxpar):
 
 # ---------------------------------------------------------------- known findings
 
+def engine_scope(api):
+    """The part of the API name that identifies the engine / layer a finding belongs to."""
+    if "." in api and api.split(".")[0] in ("PikeVM", "Backtracker", "lazy", "onepass", "Reverse", "Searcher", "Teddy", "prefilter"):
+        return api.split(".")[0]
+    return ""
+
+
+def failure_key(d):
+    """A known finding is identified by the specific INPUT that fails: property, match mode, pattern text,
+    haystack bytes (plus engine for direct engine drivers and configuration for C12).  The API variant is not
+    part of the key (Match / MatchString / MatchReader fail together)."""
+    parts = [d["prop"], d.get("scope") or engine_scope(d.get("api", "")), d.get("mode", ""), d["pattern"], d["hay"]]
+    if d.get("cfg"):
+        parts.append(d["cfg"])
+    return "|".join(parts)
+
+
+def key_hash(k):
+    return hashlib.sha1(k.encode("utf-8", "surrogateescape")).hexdigest()[:16]
+
+
+_known_cache = None
+
+
 def load_known():
+    global _known_cache
+    if _known_cache is not None:
+        return _known_cache
     path = os.path.join(VERIF, "known_findings.json")
     if not os.path.exists(path):
-        return {"findings": [], "fixed": []}, {}
+        _known_cache = ({"findings": [], "fixed": []}, {})
+        return _known_cache
     kf = json.load(open(path))
     keymap = {}
     for f in kf.get("findings", []):
         for k in f.get("witnesses", []):
-            keymap[k] = f["id"]
+            keymap[key_hash(k)] = f["id"]
         wf = f.get("witness_file")
-        if wf:
+        if wf and os.path.exists(os.path.join(VERIF, wf)):
             with gzip.open(os.path.join(VERIF, wf), "rt") as fh:
                 for line in fh:
-                    keymap[line.rstrip("\n")] = f["id"]
-    return kf, keymap
-
-
-def failure_key(d):
-    k = "|".join([d["prop"], d["api"], d.get("mode", ""), d["pattern"], d["hay"]])
-    if d.get("args"):
-        k += "|" + d["args"]
-    if d.get("cfg"):
-        k += "|" + d["cfg"]
-    return k
+                    keymap[line.strip()] = f["id"]
+    _known_cache = (kf, keymap)
+    return _known_cache
 
 
 def classify(fail_paths, prop):
@@ -228,8 +248,7 @@ def classify(fail_paths, prop):
                     continue
                 d = json.loads(line)
                 total += 1
-                k = failure_key(d)
-                fid = keymap.get(k)
+                fid = keymap.get(key_hash(failure_key(d)))
                 if fid is not None:
                     known_hit[fid] = known_hit.get(fid, 0) + 1
                 else:
